@@ -25,6 +25,7 @@ type SolverStats struct {
 	Errors   int64
 	TimeNs   int64
 	Restarts int64
+	IntQueries int64
 }
 
 var gStats SolverStats
@@ -40,6 +41,9 @@ type Solver struct {
 	timeout  int // ms
 	prelude  string
 	log      io.Writer
+	intReady bool
+	intProc  *Solver
+	flagMemo map[*Term]int
 }
 
 func solverArgv(kind string) []string {
@@ -55,6 +59,9 @@ func solverArgv(kind string) []string {
 
 func NewSolver(kind string, timeoutMs int, prelude string) *Solver {
 	s := &Solver{kind: kind, timeout: timeoutMs, prelude: prelude}
+	if f := os.Getenv("VERIF_SOLVER_LOG"); f != "" {
+		s.log, _ = os.OpenFile(f, os.O_CREATE|os.O_APPEND|os.O_WRONLY, 0o644)
+	}
 	s.start()
 	return s
 }
@@ -79,6 +86,7 @@ func (s *Solver) start() {
 	s.declared = map[string]string{}
 	s.asserted = nil
 	s.nq = 0
+	s.intReady = false
 	if s.kind == "cvc5" {
 		s.send("(set-logic ALL)\n(set-option :global-declarations true)\n")
 		s.send(fmt.Sprintf("(set-option :tlimit-per %d)\n", s.timeout))
@@ -100,6 +108,10 @@ func (s *Solver) start() {
 }
 
 func (s *Solver) Close() {
+	if s.intProc != nil {
+		s.intProc.Close()
+		s.intProc = nil
+	}
 	if s.cmd != nil {
 		s.in.Close()
 		s.cmd.Process.Kill()
@@ -176,6 +188,7 @@ func (s *Solver) Reset() {
 		s.send(fmt.Sprintf("(pop %d)\n", len(s.asserted)))
 		s.asserted = s.asserted[:0]
 	}
+	s.flagMemo = nil
 	if s.nq > 20000 {
 		s.restart()
 	}
@@ -184,6 +197,58 @@ func (s *Solver) Reset() {
 // Check decides satisfiability of pc ∧ q. With wantModel the values of
 // vars are returned (raw bits) when the answer is sat.
 func (s *Solver) Check(pc []*Term, q *Term, wantModel bool, vars []*Term) (string, map[string]uint64) {
+	// multiplication / division kernels: try the integer encoding first
+	if s.flagMemo == nil {
+		s.flagMemo = map[*Term]int{}
+	}
+	fl := 0
+	for _, c := range pc {
+		fl |= termFlags(c, s.flagMemo)
+	}
+	if q != nil {
+		fl |= termFlags(q, s.flagMemo)
+	}
+	if fl&fHard != 0 && fl&fNoInt == 0 {
+		t0 := time.Now()
+		res, model := s.CheckInt(pc, q, wantModel)
+		s.nq++
+		atomic.AddInt64(&gStats.Queries, 1)
+		atomic.AddInt64(&gStats.IntQueries, 1)
+		atomic.AddInt64(&gStats.TimeNs, int64(time.Since(t0)))
+		switch res {
+		case "sat":
+			atomic.AddInt64(&gStats.Sat, 1)
+			return res, model
+		case "unsat":
+			atomic.AddInt64(&gStats.Unsat, 1)
+			return res, model
+		case "error":
+			s.restart()
+		}
+		// unknown: fall back to the bit-vector encoding
+	} else if fl&fHardFP != 0 {
+		t0 := time.Now()
+		res, model := s.CheckOneShot(pc, q, wantModel, vars)
+		s.nq++
+		atomic.AddInt64(&gStats.Queries, 1)
+		atomic.AddInt64(&gStats.IntQueries, 1)
+		atomic.AddInt64(&gStats.TimeNs, int64(time.Since(t0)))
+		switch res {
+		case "sat":
+			atomic.AddInt64(&gStats.Sat, 1)
+			return res, model
+		case "unsat":
+			atomic.AddInt64(&gStats.Unsat, 1)
+			return res, model
+		case "error":
+			s.intProc.Close()
+			s.intProc = nil
+		}
+	}
+	return s.checkBV(pc, q, wantModel, vars)
+}
+
+func (s *Solver) checkBV(pc []*Term, q *Term, wantModel bool, vars []*Term) (string, map[string]uint64) {
 	t0 := time.Now()
 	var sb strings.Builder
 	// synchronise asserted prefix
